@@ -1,7 +1,7 @@
 #!/usr/bin/env python3
 """Confirm a seeded change and run the checks against it.
 
-usage: tools/try_mutant.py <dir with patch.diff, demo/, meta.json> [--checks C01,C04] [--tier quick] [--skip-confirm]
+usage: tools/try_mutant.py <dir with patch.diff, demo/, meta.json> [--checks C01,C04] [--tier quick] [--skip-confirm] [--confirm-only]
 
 1. scratch worktree of /repo HEAD under /tmp/mw: patch applies, builds (also -tags verif),
    the 38 baseline tests still pass, the demo FAILS with the patch and PASSES without;
@@ -43,6 +43,8 @@ def main():
             tier = args[i + 1]
         if a == "--skip-confirm":
             skip = True
+        if a == "--confirm-only":
+            checks = []
     meta = json.load(open(os.path.join(d, "meta.json")))
     patch = os.path.join(d, "patch.diff")
     name = os.path.basename(d.rstrip("/"))
